@@ -3,7 +3,8 @@
    Ring regime: every record of operations satisfying ring_theory (Z, R, ...).  Field regime: R. *)
 From Coq Require Import List Arith ZArith Reals Lra Lia Bool.
 From TLV Require Import Base.Shape Base.PyList Base.Tensor Base.BigSum Base.Ops Model.Transforms
-  Proofs.TransformsProofs Proofs.TransformsProofsR.
+  Proofs.TransformsProofs Proofs.TransformsProofsR Proofs.TransformsProofsTT Proofs.TransformsProofsTucker
+  Proofs.TransformsProofsPf2 Proofs.TransformsProofsR2.
 Import ListNotations.
 
 (* --- cp_permute_factors: any column permutation applied to all factors and the weights *)
@@ -89,6 +90,148 @@ Theorem C04_cp_normalize_canonical : forall (tape : list (list R)) (w : list R) 
 Proof. exact cp_normalize_canonical. Qed.
 Print Assumptions C04_cp_normalize_canonical.
 
+(* --- pad_tt_rank: chains of any length, any bond ranks, any padding; tt_entry / tr_entry are entry (0,0) / the trace of
+   G_1[:, j_1, :] ... G_N[:, j_N, :];  chain_ok r cores: order-3 cores whose bond dimensions match, the first one being r *)
+Theorem C04_pad_tt_rank_tt_entry : forall (F : Type) (Op : fops F), ring_theory (f0 Op) (f1 Op) (fadd Op) (fmul Op) (fsub Op) (fopp Op) (@eq F) ->
+  forall (cores : list (tensor F)) (npad : nat) (pb : bool) (cores' : list (tensor F)) (idx : list nat) (r : nat),
+  pad_tt_rank Op cores npad pb = Ok cores' -> cores <> [] -> chain_ok r cores -> inb (tt_shape cores) idx ->
+  0 < r -> 0 < last_r2 r cores ->
+  tt_entry Op cores' idx = tt_entry Op cores idx.
+Proof. exact @pad_tt_entry. Qed.
+Print Assumptions C04_pad_tt_rank_tt_entry.
+
+Theorem C04_pad_tt_rank_tr_entry : forall (F : Type) (Op : fops F), ring_theory (f0 Op) (f1 Op) (fadd Op) (fmul Op) (fsub Op) (fopp Op) (@eq F) ->
+  forall (cores : list (tensor F)) (npad : nat) (pb : bool) (cores' : list (tensor F)) (idx : list nat) (r : nat),
+  pad_tt_rank Op cores npad pb = Ok cores' -> cores <> [] -> chain_ok r cores -> inb (tt_shape cores) idx ->
+  last_r2 r cores = r ->
+  tr_entry Op cores' idx = tr_entry Op cores idx.
+Proof. exact @pad_tr_entry. Qed.
+Print Assumptions C04_pad_tt_rank_tr_entry.
+
+(* enlarged ranks as advertised: lpad = 0 for the first core, rpad = 0 for the last core unless pad_boundaries, n_padding otherwise *)
+Theorem C04_pad_tt_rank_shapes : forall (F : Type) (Op : fops F) (cores : list (tensor F)) (npad : nat) (pb : bool)
+  (cores' : list (tensor F)) (k : nat) (d : tensor F),
+  pad_tt_rank Op cores npad pb = Ok cores' -> k < length cores ->
+  length cores' = length cores /\
+  shape (nth k cores' d) = [core_r1 (nth k cores d) + lpad (length cores) npad pb k; core_n (nth k cores d);
+                            core_r2 (nth k cores d) + rpad (length cores) npad pb k].
+Proof. exact @pad_tt_rank_shapes. Qed.
+Print Assumptions C04_pad_tt_rank_shapes.
+
+(* the only core of an order-1 train is first and last: both boundary ranks stay (repaired rule, /repo f39990a) *)
+Theorem C04_pad_tt_rank_order1 : forall (F : Type) (Op : fops F) (G : tensor F) (npad : nat) (cores' : list (tensor F)),
+  pad_tt_rank Op [G] npad false = Ok cores' -> cores' = [pad_core Op 0 0 G].
+Proof. exact @pad_tt_rank_order1. Qed.
+Print Assumptions C04_pad_tt_rank_order1.
+
+(* --- tucker_mode_dot: Tucker tensors of any order; tucker_entry = sum over the core multi-index *)
+Theorem C04_tucker_mode_dot_matrix : forall (F : Type) (Op : fops F), ring_theory (f0 Op) (f1 Op) (fadd Op) (fmul Op) (fsub Op) (fopp Op) (@eq F) ->
+  forall (core : tensor F) (fs : list (mat F)) (M : mat F) (k : nat) (kd : bool) core' fs' (idx : list nat) (j : nat),
+  tucker_mode_dot Op core fs (OpMat M) k kd = Ok (core', fs') ->
+  length idx = length fs -> j < length M ->
+  tucker_entry Op core' fs' (set_nth k j idx) =
+  sumn Op (length (nth k fs [])) (fun i => fmul Op (mget Op M j i) (tucker_entry Op core fs (set_nth k i idx))).
+Proof. exact @tucker_mode_dot_matrix. Qed.
+Print Assumptions C04_tucker_mode_dot_matrix.
+
+Theorem C04_tucker_mode_dot_vector_keep : forall (F : Type) (Op : fops F), ring_theory (f0 Op) (f1 Op) (fadd Op) (fmul Op) (fsub Op) (fopp Op) (@eq F) ->
+  forall (core : tensor F) (fs : list (mat F)) (v : list F) (k : nat) core' fs' (idx : list nat),
+  tucker_mode_dot Op core fs (OpVec v) k true = Ok (core', fs') ->
+  length idx = length fs ->
+  cp_shape fs' = set_nth k 1 (cp_shape fs) /\
+  tucker_entry Op core' fs' (set_nth k 0 idx) =
+  sumn Op (length (nth k fs [])) (fun i => fmul Op (vget Op v i) (tucker_entry Op core fs (set_nth k i idx))).
+Proof. exact @tucker_mode_dot_vector_keep. Qed.
+Print Assumptions C04_tucker_mode_dot_vector_keep.
+
+Theorem C04_tucker_mode_dot_vector_contract : forall (F : Type) (Op : fops F), ring_theory (f0 Op) (f1 Op) (fadd Op) (fmul Op) (fsub Op) (fopp Op) (@eq F) ->
+  forall (core : tensor F) (fs : list (mat F)) (v : list F) (k : nat) core' fs' (idx' : list nat),
+  tucker_mode_dot Op core fs (OpVec v) k false = Ok (core', fs') ->
+  S (length idx') = length fs ->
+  cp_shape fs' = remove_nth k (cp_shape fs) /\
+  tucker_entry Op core' fs' idx' =
+  sumn Op (length (nth k fs [])) (fun i => fmul Op (vget Op v i) (tucker_entry Op core fs (insert_at k i idx'))).
+Proof. exact @tucker_mode_dot_vector_contract. Qed.
+Print Assumptions C04_tucker_mode_dot_vector_contract.
+
+(* --- tucker_normalize over R; tk_norms_ok: tape_k holds the column norms of factor k (contract of the square roots) *)
+Theorem C04_tucker_normalize_entry : forall (tape : list (list R)) (core : tensor R) (fs : list (mat R)) core' fs' (idx : list nat),
+  tucker_normalize Rops tape core fs = (core', fs') -> tk_norms_ok (shape core) tape fs -> length idx = length fs ->
+  tucker_entry Rops core' fs' idx = tucker_entry Rops core fs idx.
+Proof. exact tucker_normalize_entry. Qed.
+Print Assumptions C04_tucker_normalize_entry.
+
+Theorem C04_tucker_normalize_canonical : forall (tape : list (list R)) (core : tensor R) (fs : list (mat R)) core' fs',
+  tucker_normalize Rops tape core fs = (core', fs') -> tk_norms_ok (shape core) tape fs ->
+  shape core' = shape core /\ tk_units (shape core) tape fs' /\
+  forall js k, inb (shape core) js -> k < length (shape core) ->
+    vget Rops (nth k tape []) (nth k js 0) = 0%R -> tget Rops core' js = 0%R.
+Proof. exact tucker_normalize_canonical. Qed.
+Print Assumptions C04_tucker_normalize_canonical.
+
+(* --- PARAFAC2: pf2_entry w A B C Ps i j k = sum_s P_i[j][s] * (sum_r w_r A[i][r] B[s][r] C[k][r]) *)
+Theorem C04_pf2_entry_evolving : forall (F : Type) (Op : fops F), ring_theory (f0 Op) (f1 Op) (fadd Op) (fmul Op) (fsub Op) (fopp Op) (@eq F) ->
+  forall (w : list F) (A B C : mat F) (Ps : list (mat F)) (i j k : nat),
+  rectb (length B) (nth i Ps []) = true -> j < length (nth i Ps []) -> length w <= ncols B ->
+  pf2_entry Op w A B C Ps i j k = cp_entry Op w [A; matmul Op (nth i Ps []) B; C] [i; j; k].
+Proof. exact @pf2_entry_evolving. Qed.
+Print Assumptions C04_pf2_entry_evolving.
+
+Theorem C04_parafac2_normalise_entry : forall (tape : list (list R)) (w : list R) (A B C : mat R) (Ps : list (mat R))
+  w' A' B' C' Ps' (i j k : nat),
+  parafac2_normalise Rops tape w A B C Ps = (w', [A'; B'; C'], Ps') ->
+  Forall2 (norms_ok (length w)) tape (norm_inputs Rops w [A; B; C]) ->
+  pf2_entry Rops w' A' B' C' Ps' i j k = pf2_entry Rops w A B C Ps i j k.
+Proof. exact parafac2_normalise_entry. Qed.
+Print Assumptions C04_parafac2_normalise_entry.
+
+Theorem C04_parafac2_normalise_canonical : forall (tape : list (list R)) (w : list R) (A B C : mat R) (Ps : list (mat R)) w' fs' Ps',
+  parafac2_normalise Rops tape w A B C Ps = (w', fs', Ps') ->
+  Forall2 (norms_ok (length w)) tape (norm_inputs Rops w [A; B; C]) ->
+  Ps' = Ps /\ Forall2 (unit_or_zero (length w)) tape fs' /\
+  forall r, r < length w ->
+    (0 <= vget Rops w' r)%R /\ (Exists (fun sc => vget Rops sc r = 0%R) tape -> vget Rops w' r = 0%R).
+Proof. exact parafac2_normalise_canonical. Qed.
+Print Assumptions C04_parafac2_normalise_canonical.
+
+(* Parafac2Tensor.from_CPTensor: the QR answer is data; its contract B = Q R (row j) is the hypothesis *)
+Theorem C04_from_cptensor_entry : forall (F : Type) (Op : fops F), ring_theory (f0 Op) (f1 Op) (fadd Op) (fmul Op) (fsub Op) (fopp Op) (@eq F) ->
+  forall (Qm Rm : mat F) (w : list F) (A B C : mat F) w' A' B' C' Ps (i j k : nat),
+  from_cp Qm Rm w A B C = (w', [A'; B'; C'], Ps) -> i < length A ->
+  (forall r, r < length w -> mget Op B j r = sumn Op (length Rm) (fun s => fmul Op (mget Op Qm j s) (mget Op Rm s r))) ->
+  pf2_entry Op w' A' B' C' Ps i j k = cp_entry Op w [A; B; C] [i; j; k].
+Proof. exact @from_cp_entry. Qed.
+Print Assumptions C04_from_cptensor_entry.
+
+(* svd_decompress_parafac2_tensor: slice i of the result is L_i x slice i of the operand (unchanged where no loading is given) *)
+Theorem C04_svd_decompress_entry : forall (F : Type) (Op : fops F), ring_theory (f0 Op) (f1 Op) (fadd Op) (fmul Op) (fsub Op) (fopp Op) (@eq F) ->
+  forall (w : list F) (A B C : mat F) (Ps : list (mat F)) (Ls : list (option (mat F))) w' A' B' C' Ps' (i j k : nat),
+  svd_decompress Op w A B C Ps Ls = Ok (w', [A'; B'; C'], Ps') -> i < length Ps ->
+  match nth i Ls None with
+  | Some Lm => j < length Lm -> length B <= ncols (nth i Ps []) ->
+      pf2_entry Op w' A' B' C' Ps' i j k =
+      sumn Op (length (nth i Ps [])) (fun t => fmul Op (mget Op Lm j t) (pf2_entry Op w A B C Ps i t k))
+  | None => pf2_entry Op w' A' B' C' Ps' i j k = pf2_entry Op w A B C Ps i j k
+  end.
+Proof. exact @svd_decompress_entry. Qed.
+Print Assumptions C04_svd_decompress_entry.
+
+(* svd_compress_tensor_slices, one slice: loading x score = slice when every singular value is kept
+   (the SVD answer (U, s, Vh) is data; its contract U diag(s) Vh = X is the last hypothesis) *)
+Theorem C04_svd_compress_slice : forall (F : Type) (Op : fops F), ring_theory (f0 Op) (f1 Op) (fadd Op) (fmul Op) (fsub Op) (fopp Op) (@eq F) ->
+  forall (rl : nat) (thr : F) (X U : mat F) (s : list F) (Vh score : mat F) (L : option (mat F)),
+  compress_slice Op rl thr X (U, s, Vh) = (score, L) ->
+  match L with
+  | Some Lm =>
+      count_kept Op thr s = length s -> length Vh = length s -> rectb (length s) U = true ->
+      forall j k, j < length U -> k < ncols score ->
+      mget Op X j k = sumn Op (length s) (fun t => fmul Op (mget Op U j t) (fmul Op (vget Op s t) (mget Op Vh t k))) ->
+      mget Op (matmul Op Lm score) j k = mget Op X j k
+  | None => score = X
+  end.
+Proof. exact @compress_slice_entry. Qed.
+Print Assumptions C04_svd_compress_slice.
+
 (* --- non-vacuity: the hypotheses are satisfiable and the model computes *)
 Example C04_nonvacuous_ring :
   cp_permute Zops [1; 0] [2; 3]%Z [[[1; 2]; [3; 4]]; [[5; 6]; [7; 8]]]%Z
@@ -108,3 +251,42 @@ Proof.
   apply Forall2_cons; [|apply Forall2_cons; [|apply Forall2_nil]]; (split; [reflexivity|]); intros r Hr;
     (destruct r as [|[|r]]; [| |simpl in Hr; lia]); unfold colsumsq, sumn, mget, vget; cbn; lra.
 Qed.
+
+Example C04_nonvacuous_tt :
+  let G1 := mk [1; 2; 2] [1; 2; 3; 4]%Z in let G2 := mk [2; 2; 1] [5; 6; 7; 8]%Z in
+  pad_tt_rank Zops [G1; G2] 1 false
+    = Ok [mk [1; 2; 3] [1; 2; 0; 3; 4; 0]%Z; mk [3; 2; 1] [5; 6; 7; 8; 0; 0]%Z] /\
+  chain_ok 1 [G1; G2] /\ last_r2 1 [G1; G2] = 1 /\ inb (tt_shape [G1; G2]) [1; 0] /\
+  tt_entry Zops [G1; G2] [1; 0] = 43%Z /\
+  pad_tt_rank Zops [mk [1; 2; 1] [3; 4]%Z] 2 false = Ok [mk [1; 2; 1] [3; 4]%Z] /\
+  pad_tt_rank Zops [mk [2; 1; 2] [1; 2; 3; 4]%Z] 1 true = Ok [mk [3; 1; 3] [1; 2; 0; 3; 4; 0; 0; 0; 0]%Z] /\
+  tr_entry Zops [mk [2; 1; 2] [1; 2; 3; 4]%Z] [0] = 5%Z.
+Proof. cbv zeta. repeat split; vm_compute; first [reflexivity | lia]. Qed.
+
+Example C04_nonvacuous_tucker :
+  let core := mk [2; 2] [1; 2; 3; 4]%Z in let fs := [[[1; 0]; [1; 1]]; [[2; 1]; [0; 1]; [1; 1]]]%Z in
+  tucker_entry Zops core fs [1; 2] = 10%Z /\
+  tucker_mode_dot Zops core fs (OpMat [[1; 1]]%Z) 0 false = Ok (core, [[[2; 1]]; [[2; 1]; [0; 1]; [1; 1]]]%Z) /\
+  tucker_mode_dot Zops core fs (OpVec [1; 1]%Z) 0 false = Err /\
+  tucker_mode_dot Zops (mk [1; 2; 1] [1; 2]%Z) [[[1]; [2]]; [[1; 1]]; [[3]]]%Z (OpVec [1; 1]%Z) 0 false
+    = Ok (mk [2; 1] [3; 6]%Z, [[[1; 1]]; [[3]]]%Z).
+Proof. cbv zeta. repeat split; vm_compute; reflexivity. Qed.
+
+Example C04_nonvacuous_tucker_field :
+  let core := mk [2; 1] [2; 5]%R in let fs := [[[3; 0]; [4; 0]]; [[-1]]]%R in let tape := [[5; 0]; [1]]%R in
+  tk_norms_ok (shape core) tape fs.
+Proof.
+  cbv zeta. cbn [shape tk_norms_ok]. split; [|split; [|exact I]]; (split; [reflexivity|]); intros r Hr.
+  - destruct r as [|[|r]]; [| |simpl in Hr; lia]; unfold colsumsq, sumn, mget, vget; cbn; lra.
+  - destruct r as [|r]; [|simpl in Hr; lia]; unfold colsumsq, sumn, mget, vget; cbn; lra.
+Qed.
+
+Example C04_nonvacuous_pf2 :
+  let P := [[0; 1]; [1; 0]; [0; 0]]%Z in
+  pf2_entry Zops [1; 2]%Z [[1; 1]]%Z [[1; 2]; [3; 4]]%Z [[1; 1]]%Z [P] 0 0 0 = 11%Z /\
+  svd_decompress Zops [1; 2]%Z [[1; 1]]%Z [[1; 2]; [3; 4]]%Z [[1; 1]]%Z [P] [Some [[0; 0; 1]; [1; 0; 0]; [0; 1; 0]; [0; 0; 0]]%Z]
+    = Ok ([1; 2]%Z, [[[1; 1]]; [[1; 2]; [3; 4]]; [[1; 1]]]%Z, [[[0; 0]; [0; 1]; [1; 0]; [0; 0]]%Z]) /\
+  compress_slice Zops 2 0%Z [[2; 0]; [0; 1]; [0; 0]]%Z ([[1; 0]; [0; 1]; [0; 0]]%Z, [2; 1]%Z, [[1; 0]; [0; 1]]%Z)
+    = ([[2; 0]; [0; 1]]%Z, Some [[1; 0]; [0; 1]; [0; 0]]%Z) /\
+  count_kept Zops 0%Z [2; 1]%Z = 2.
+Proof. cbv zeta. repeat split; vm_compute; reflexivity. Qed.
